@@ -253,6 +253,7 @@ type c12case struct {
 	Pushes int      `json:"pushes,omitempty"`
 	PlainW bool     `json:"plainw,omitempty"`
 	FailW  int      `json:"failw,omitempty"` // k+1: the writer accepts k bytes and then fails; 0: it never fails
+	Big    *c12big  `json:"big,omitempty"`
 }
 
 var errC12Writer = errors.New("c12: writer failed")
@@ -632,6 +633,132 @@ func c12interesting(n *c12node) bool {
 	return false
 }
 
+
+// ---- big replies: element counts and payload lengths around the decoder's preallocation bound (and far beyond)
+
+type c12big struct {
+	Typ    byte `json:"typ"` // $ = ! blob kinds (N bytes); * ~ > aggregates (N elements); % map (N pairs)
+	N      int  `json:"n"`
+	Nested bool `json:"nested"` // placed between two siblings inside an array
+	Buf    int  `json:"buf"`
+	Chunk  int  `json:"chunk"` // bytes per read of the underlying connection (0 = everything at once)
+}
+
+type c12chunkRd struct {
+	data  []byte
+	chunk int
+}
+
+func (r *c12chunkRd) Read(p []byte) (int, error) {
+	if len(r.data) == 0 {
+		return 0, io.EOF
+	}
+	n := len(r.data)
+	if r.chunk > 0 && n > r.chunk {
+		n = r.chunk
+	}
+	n = copy(p, r.data[:n])
+	r.data = r.data[n:]
+	return n, nil
+}
+
+func c12bigPayload(n int) []byte {
+	b := make([]byte, n)
+	for i := range b {
+		b[i] = byte(i % 251)
+	}
+	return b
+}
+
+func c12bigRun(r *vrun.Run, b c12big) {
+	r.Evaluations++
+	var w bytes.Buffer
+	if b.Nested {
+		w.WriteString("*3\r\n$6\r\nbefore\r\n")
+	}
+	elems := b.N
+	switch b.Typ {
+	case '$', '=', '!':
+		fmt.Fprintf(&w, "%c%d\r\n", b.Typ, b.N)
+		w.Write(c12bigPayload(b.N))
+		w.WriteString("\r\n")
+	default:
+		fmt.Fprintf(&w, "%c%d\r\n", b.Typ, b.N)
+		if b.Typ == '%' {
+			elems = 2 * b.N
+		}
+		for i := 0; i < elems; i++ {
+			fmt.Fprintf(&w, ":%d\r\n", i)
+		}
+	}
+	if b.Nested {
+		w.WriteString(":7\r\n")
+	}
+	w.WriteString(c12next)
+	br := bufio.NewReaderSize(&c12chunkRd{data: w.Bytes(), chunk: b.Chunk}, b.Buf)
+	var m, nx RedisMessage
+	var err, err2, err3 error
+	p, site := vrun.Catch(func() {
+		m, err = readNextMessage(br)
+		if err == nil {
+			nx, err2 = readNextMessage(br)
+			if err2 == nil {
+				_, err3 = readNextMessage(br)
+			}
+		}
+	})
+	desc := fmt.Sprintf("%q with %d elements/bytes, nested=%v, bufio %d, %d bytes per read", b.Typ, b.N, b.Nested, b.Buf, b.Chunk)
+	if p != nil {
+		r.Outcome("panic")
+		r.Violate("big reply: panic in "+site, desc+fmt.Sprintf(": %v", p), c12case{Big: &b})
+		return
+	}
+	if err != nil || err2 != nil || nx.typ != '+' || nx.string() != "NEXT" || err3 != io.EOF {
+		r.Outcome("big reply: decode error or frame boundary lost")
+		r.Violate("big reply: well-formed reply not decoded / frame boundary lost", desc+fmt.Sprintf(": err=%v next=%v/%v then %v", err, nx.String(), err2, err3), c12case{Big: &b})
+		return
+	}
+	root := m
+	if b.Nested {
+		vals := m.values()
+		if m.typ != '*' || len(vals) != 3 || vals[0].string() != "before" || vals[2].typ != ':' || vals[2].intlen != 7 {
+			r.Outcome("big reply: siblings differ")
+			r.Violate("big reply: siblings of a big element are decoded wrongly", desc+fmt.Sprintf(": got %d children", len(vals)), c12case{Big: &b})
+			return
+		}
+		root = vals[1]
+	}
+	bad := ""
+	switch b.Typ {
+	case '$', '=', '!':
+		if root.typ != b.Typ || !bytes.Equal([]byte(root.string()), c12bigPayload(b.N)) {
+			bad = fmt.Sprintf("payload of %d bytes differs (got %d bytes, type %q)", b.N, len(root.string()), root.typ)
+		}
+	default:
+		vals := root.values()
+		if root.typ != b.Typ || len(vals) != elems {
+			bad = fmt.Sprintf("got type %q with %d elements, want %d", root.typ, len(vals), elems)
+		} else {
+			for i, v := range vals {
+				if v.typ != ':' || v.intlen != int64(i) {
+					bad = fmt.Sprintf("element %d is %q %d", i, v.typ, v.intlen)
+					break
+				}
+			}
+		}
+	}
+	if bad != "" {
+		r.Outcome("big reply: value differs")
+		r.Violate("big reply: decoded value differs from the encoded one", desc+": "+bad, c12case{Big: &b})
+		return
+	}
+	r.Outcome("big reply decoded == generated")
+}
+
+// c12prealloc mirrors resp.go maxPrealloc (bytes preallocated on the word of a length header); a literal so that the
+// harness also builds against trees that rename or drop the constant.
+const c12prealloc = 1 << 16
+
 func TestVerif_C12(t *testing.T) {
 	vrun.Main(t, "C12", func(r *vrun.Run) {
 		e := &c12env{r: r, brs: map[int]*bufio.Reader{}}
@@ -639,6 +766,10 @@ func TestVerif_C12(t *testing.T) {
 			var c c12case
 			if err := json.Unmarshal(raw, &c); err != nil {
 				panic(err)
+			}
+			if c.Big != nil {
+				c12bigRun(r, *c.Big)
+				return
 			}
 			data := c12wire(&c)
 			if c.Kind == "stream" {
@@ -654,13 +785,41 @@ func TestVerif_C12(t *testing.T) {
 		r.Bounds["max_nodes"] = maxNodes
 		r.Bounds["pair_split_max_len"] = pairMax
 		r.Bounds["bufio_sizes"] = []int{16, 32, 4096}
-		r.Rule = "every RESP value tree with <= max_nodes nodes (attribute frame = 1 node) over types + - : $ _ # , ( ! = * ~ % > with RESP2 nulls, streamed strings (every 2-way chunking) and streamed aggregates; single-node replies use the full payload alphabet ('', a, OK, OKx, CRLF, a CRLF b, binary, 40 bytes, frame look-alikes), children a reduced one (thorough: a second pass with a larger child alphabet up to max_nodes-1 nodes); each encoding (own encoder) + '+NEXT' is decoded by the real readNextMessage through bufio readers of 16/32/4096 bytes with the stream cut at every single position, one byte per read, and (thorough, encodings <= 24 bytes) at every pair of positions; streamTo on every scalar/aggregate single-node reply with 0-2 push frames in front, both writer kinds, and a writer that fails after k bytes for every k (a stream reported clean must leave the reader at the next frame). non-trivial = tree with aggregate, attribute, streamed form, CRLF in payload or payload > 16 bytes"
+		r.Rule = "every RESP value tree with <= max_nodes nodes (attribute frame = 1 node) over types + - : $ _ # , ( ! = * ~ % > with RESP2 nulls, streamed strings (every 2-way chunking) and streamed aggregates; single-node replies use the full payload alphabet ('', a, OK, OKx, CRLF, a CRLF b, binary, 40 bytes, frame look-alikes), children a reduced one (thorough: a second pass with a larger child alphabet up to max_nodes-1 nodes); each encoding (own encoder) + '+NEXT' is decoded by the real readNextMessage through bufio readers of 16/32/4096 bytes with the stream cut at every single position, one byte per read, and (thorough, encodings <= 24 bytes) at every pair of positions; streamTo on every scalar/aggregate single-node reply with 0-2 push frames in front, both writer kinds, and a writer that fails after k bytes for every k (a stream reported clean must leave the reader at the next frame). plus big replies: arrays, sets, pushes, maps with element counts and blob kinds with payload lengths around the decoder's preallocation bound (maxPrealloc) and far beyond, alone and nested, all at once or 1000 bytes per read. non-trivial = tree with aggregate, attribute, streamed form, CRLF in payload or payload > 16 bytes"
 		r.Assume("bufio.Reader size >= 32 as enforced by rueidis.go (ReadBufferEachConn < 32 -> default); the 16 byte reader is only used when every number line of the encoding fits into 16 bytes")
 		r.Assume("streamTo on a reply preceded by an attribute frame: only frame consumption is checked (weak reading: the streaming sentence of the property speaks of string/integer/float replies; Redis sends no attributes today); observed behaviour is recorded as an outcome")
 		r.Assume("booleans through streamTo: the property names string, integer and float replies only, so only exact frame consumption is checked for '#'")
 		r.Assume("attributes are not generated in front of RESP2 nulls ($-1, *-1): RESP2 has no attribute frames")
 		r.Assume("integers carry an optional '-' only; the '+' sign allowed by the RESP3 grammar is never sent by Redis and is probed separately as a note")
 
+		if r.Mine(0) {
+			eb := c12prealloc / messageStructSize // elements preallocated on the word of an aggregate header
+			pb := c12prealloc                     // bytes preallocated on the word of a blob header
+			var bigs []c12big
+			for _, nested := range []bool{false, true} {
+				for _, ch := range []int{0, 1000} {
+					for _, n := range []int{eb - 1, eb, eb + 1, eb + 2, 2*eb + 1, 5000} {
+						for _, t := range []byte{'*', '~', '>', '%'} {
+							bigs = append(bigs, c12big{Typ: t, N: n, Nested: nested, Buf: 4096, Chunk: ch})
+						}
+					}
+					for _, n := range []int{pb - 1, pb, pb + 1, pb + 2, 2*pb + 3, 300000} {
+						for _, t := range []byte{'$', '=', '!'} {
+							for _, buf := range []int{4096, 1 << 19} {
+								bigs = append(bigs, c12big{Typ: t, N: n, Nested: nested, Buf: buf, Chunk: ch})
+							}
+						}
+					}
+				}
+			}
+			r.Bounds["big_replies"] = len(bigs)
+			for _, b := range bigs {
+				if b.Typ == '>' && b.Nested {
+					continue // a push frame is not a child value
+				}
+				c12bigRun(r, b)
+			}
+		}
 		attr := []*c12node{c12leaf('+', "ttl"), {Typ: ':', Num: 3600}}
 		inner := &c12gen{leaves: c12innerLeaves(false), memo: map[int][]*c12node{}, fmemo: map[int][][]*c12node{}, attr: attr}
 
